@@ -16,12 +16,18 @@ Big == 2000000000
 \* the moment the master computes the time to write does not
 Tight(c) == c.fwd + c.pAct + c.back + ((c.fwd + c.back) \div 4)
 Params == [proc : {"lan", "nonlan"}, fwd : Delays, back : Delays, pAct : Procs, pRep : Procs \cup {10}, room : {Big, 0},
-           keep : BOOLEAN, junk : {0, 1, 2}]
+           keep : BOOLEAN, junk : {0, 1, 2, 3}]
 \* the reported delay only matters for the non-LAN procedure; lying is explored with small real delays
 Relevant(c) == /\ (c.proc = "lan" => c.pAct = 0 /\ c.pRep = 0)
                /\ (c.pRep # c.pAct => c.proc = "nonlan" /\ c.fwd \in {0, 2, 500} /\ c.back \in {0, 7, 500})
                /\ (c.junk # 0 => ~c.keep /\ c.room = Big)
+               /\ (c.junk = 3 => c.proc = "nonlan")
                /\ (c.room < Big => c.proc = "nonlan" /\ c.fwd + c.back >= 4 /\ c.fwd <= 501 /\ c.back <= 501 /\ c.pAct \in {0, 3} /\ c.pRep = c.pAct)
+
+\* histories of the LAN procedure at the outstation: they start with a RECORD_CURRENT_TIME and contain a WRITE
+LanLen == 5
+LanHistories == UNION {{h \in [1..n -> LanOps] : h[1] = "R" /\ (\E i \in 1..n : h[i] = "W") /\ h[n] \in {"W", "Rr"}} : n \in 2..LanLen}
+ASSUME \A h \in LanHistories : PrintT(<<"LAN", ToJson(h)>>)
 
 MCInit == \E c \in Params : Relevant(c) /\ s = Init(IF c.room = 0 THEN [c EXCEPT !.room = Tight(c)] ELSE c)
 MCNext == s.pc # "done" /\ s' = Step(s)
